@@ -323,8 +323,11 @@ class Conv:
 
     def __init__(self, keyring, creds=True):
         from txdbus import protocol as P
-        self.saved = P._is_linux
-        P._is_linux = bool(creds)
+        self.saved = getattr(P, '_is_linux', None)
+        if self.saved is None and not creds:
+            raise LookupError('no way to withhold peer credentials')
+        if self.saved is not None:
+            P._is_linux = bool(creds)
         self.p, self.t = make_server(_real_auth(keyring))
         self.p.dataReceived(b'\0')
         self.exc = None
@@ -340,7 +343,8 @@ class Conv:
 
     def close(self):
         from txdbus import protocol as P
-        P._is_linux = self.saved
+        if self.saved is not None:
+            P._is_linux = self.saved
 
 
 def _cookie_reply(keyring, data_line, wrong=None):
@@ -572,7 +576,11 @@ def _task_real(_):
         for then in ('BEGIN', 'retry-then-BEGIN'):
             k = tempfile.mkdtemp(prefix='mcx-keyring-')
             os.chmod(k, 0o700)
-            c = Conv(k, creds)
+            try:
+                c = Conv(k, creds)
+            except LookupError:
+                shutil.rmtree(k, ignore_errors=True)
+                continue        # credentials cannot be withheld any more
             try:
                 res.count('transitions')
                 res.count('evaluations')
